@@ -527,3 +527,29 @@ class last_row:
             yield "segments-before-are-kept", both(*[seg_eq(Q.seq_get(out, k), Q.seq_get(row, k)) for k in range(keep)]) if keep else True
         else:
             yield "segments-before-are-kept", forall(0, keep, lambda k: seg_eq(Q.seq_get(out, k), Q.seq_get(row, k)))
+
+
+# =================================================================================================================
+# Screen.clear — "forced clears": the record of what is believed to be on the terminal is dropped, so the next
+# draw_screen cannot take its unchanged-canvas shortcut (`if self.screen_buf and canvas is self._screen_buf_canvas`)
+# nor skip any row (`osb = []` when there is no screen_buf): it repaints everything.  Nothing else changes.
+# (alias: contracts/C12_mainloop.py inlines write / flush / clear into _start / _stop; a primary contract here would
+# replace that inlining.)
+
+CLEAR_SCREEN = Obj(_rdb.Screen, dict(screen_buf=Opt(Opaque("ScreenBuf")), _screen_buf_canvas=Opt(Opaque("Canvas")), _rows_used=Opt(Int), _cy=Int,
+                                     _setup_G1_done=Bool, _resized=Bool, maxrow=Opt(Int)))
+
+
+@contract(RD + "Screen.clear", property="C04", alias="repaint", replayable=False)
+class screen_clear:
+    self_shape = CLEAR_SCREEN
+    params = {}
+    raises = ()
+    modifies = ("screen_buf",)
+
+    def ensures(old, s, a, result):
+        yield "nothing-is-believed-to-be-on-the-terminal", is_none(s.screen_buf)
+        yield "returns-nothing", result is None
+        yield "partial-display-bookkeeping-untouched", both(opt_eq(s._rows_used, old._rows_used), s._cy == old._cy, opt_eq(s.maxrow, old.maxrow),
+                                                            s._setup_G1_done == old._setup_G1_done, s._resized == old._resized,
+                                                            opt_eq(s._screen_buf_canvas, old._screen_buf_canvas))
